@@ -327,7 +327,7 @@ def record_big_episode(m, task):
     exc = ""
     # an early overwrite of the state (new altitude, non-zero VD): everything after it must be what a fresh integrator started
     # from that state gives - also across the capacity boundary thousands of rows later
-    pre = int(rng.choice([0, 3, 40])) if task.get("setpva", True) else 0
+    pre = [3, 40, 0, 333][task["tid"] % 4] if task.get("setpva", True) else 0     # by trace number: every run has overwrites at rows 3, 40, 333
     head = None
     if pre:
         o.integrate(ep.inc.iloc[:pre])
